@@ -416,3 +416,45 @@ prop(
     jobs=[{"test": "TestC17", "checks": 350, "race": True, "timeout": 400, "thorough": {"checks": 3000, "shards": 8, "timeout": 1700}}],
     floor={"quick": 100, "thorough": 3000},
 )
+
+prop(
+    "C19",
+    title="Filesystem store round-trips, isolates keys, stays confined, reports errors",
+    level="exploration",
+    technique="stateful (model-based) property testing with rapid state machines; every store/retrieve runs in a child process (exit status observed), unprivileged when possible; injected I/O faults",
+    design_ref="DESIGN.md §5 C19",
+    rule=("rapid state machine over a fresh directory tree: store(id, document populated by reflection, no-clobber on/off), store of documents without id / without "
+          "metadata / nil, retrieve(id incl. unknown and empty), faults (delete entry, truncate to zero, overwrite with junk, replace by directory, make unreadable, remove "
+          "base directory, base is a regular file, base unwritable); ids: plain, '../x', '/etc/passwd', 'a/b', '..', '.', unicode, NUL, newline, 4 KB, invalid UTF-8. "
+          "Model: map id -> stored bytes; after every store all model ids are retrieved in a fresh child and the tree around the base directory is compared. "
+          "Non-trivial = history containing an overwrite, a no-clobber conflict or a faulted retrieve; distinct = digest of the history."),
+    assumptions=["when the harness runs as root the child runs as uid/gid 65534 over a tree owned by that uid (directory-permission mistakes are then observable); otherwise as the invoking user",
+                 "for a corrupted (junk) entry either an error or some non-empty document is accepted; an empty (zero-length) entry must yield an error"],
+    level_text=("invariant over histories against a map model: successful store then retrieve gives a proto.Equal document, other ids unaffected, every created path is a "
+                "direct child of the configured directory, a missing directory is created and usable, no-clobber refuses and preserves, and every failure is an error return "
+                "of a child that exits 0 (never a process exit, panic or silently empty document)."),
+    level_note="trusts rapid's state-machine driver, os/exec and the helper harness/cmd/storechild (public writer/reader API only)",
+    cmds={"VERIF_STORECHILD": "cmd/storechild"},
+    jobs=[{"test": "TestC19", "checks": 120, "steps": 12, "timeout": 400, "thorough": {"checks": 600, "steps": 14, "shards": 16, "timeout": 1700}}],
+    floor={"quick": 30, "thorough": 1000},
+)
+
+prop(
+    "C20",
+    title="Storing a document is atomic with respect to crashes",
+    level="fault_enumeration",
+    technique="crash-point enumeration from outside: the storing child is traced with strace, killed (fault injection) before each file-system call of the store takes effect, torn prefixes of every write are synthesised, and each crash state is read back in a fresh process",
+    design_ref="DESIGN.md §5 C20",
+    rule=("scenarios {first store, overwrite with a document of another length, overwrite while a neighbour id exists} x generated documents of several sizes. Per scenario: "
+          "trace the store's file-system calls on the main thread (strace -ff -y); for the j-th call re-run the child with strace inject=<call>:error=EINTR:signal=KILL:when=<index> "
+          "so that it dies before that call takes effect (the injected run's trace confirms the killed call; a miss is retried, then inconclusive); for every write, torn prefixes "
+          "(all for <=512 bytes; 64 evenly spaced + first/last bytes + every top-level protobuf field boundary otherwise); retrieve the crashed id and the neighbour from every state in a "
+          "fresh child. Non-trivial = crash state whose directory differs from both the old and the new state; evaluations = crash states examined."),
+    assumptions=["process death only (page cache survives): power loss / fsync ordering is not modelled", "the store's sequence of file-system calls is that of the traced execution (storing goroutine locked to the main thread in the helper)"],
+    level_text=("fault enumeration: every system-call boundary of the traced store and torn prefixes of every write; retrieve must return an error, the complete old document "
+                "or the complete new document (proto.Equal), the neighbour entry must be intact, the uncrashed state must return the new document."),
+    level_note="trusts strace's fault injection and the helper harness/cmd/storechild; exhaustive for the call boundaries of each traced execution, sampled for torn prefixes of large writes",
+    cmds={"VERIF_STORECHILD": "cmd/storechild"},
+    jobs=[{"test": "TestC20", "rapid": False, "exhaustive": True, "timeout": 600, "shards": 3, "thorough": {"shards": 16, "timeout": 2400}}],
+    floor={"quick": 50, "thorough": 1000},
+)
